@@ -26,6 +26,12 @@ glob metacharacters, in look-alike groups that always occur TOGETHER in a scenar
 'a', 'a.d'; 'bd', 'd', 'b', '.'; ...): the pid label of a gauge series must be the identity string exactly.
 FILE AGE: per scenario ('age': now / 3s / 1h / keep) the mtime of every store file is set before EVERY collection point
 (also right after mark_process_dead), as harness/props/c12.py does: a file that LOOKS idle must still be re-read.
+SPARSE COLLECTIONS / ONE COLLECTOR OBJECT: scenario key 'kept' — the SAME MultiProcessCollector object serves every
+collection of the scenario (a server registers its collector once); steps ['hold'] ... ['release'] — no collection
+happens between them (random spans; spans in which a worker dies and a new worker with the same pid re-creates its
+live-gauge files with other values / fewer / more children; a file growing past its initial size; plain write spans).
+The ordinary per-process-log oracle applies at every collection point: nothing the collector kept from an earlier
+collection may show.
 RACING COLLECTIONS: step ['race', [pid, ...], 'glob' | 'merge', place] — the collection that follows the step RACES with
 `mark_process_dead`: the collector lists the directory, then (before it reads anything) the given processes are reaped
 and mark_process_dead removes their live-gauge files (the only files that may legitimately vanish under a collector),
@@ -490,8 +496,11 @@ class Result:
 
 
 class World:
-    def __init__(self, sim, pool, res, want_sample=False):
+    def __init__(self, sim, pool, res, want_sample=False, kept=False):
         self.sim, self.pool, self.res = sim, pool, res
+        self.kept = mpsim.KeptCollector(sim.dir) if kept else None     # one collector object for the whole scenario
+        self.held = False           # inside a ['hold'] ... ['release'] span: no collection
+        self.span_dead, self.span_respawn, self.span_len = set(), False, 0
         self.oracle = Oracle(pool)
         self.procs = {}
         self.incarnation = {}
@@ -516,6 +525,10 @@ class World:
         res = self.res
         op = st[0]
         res.count('step:' + op)
+        if self.held and op not in ('hold', 'release'):
+            self.span_len += 1
+            if op == 'dead':
+                self.span_dead.add(str(st[1]))
         if op == 'dead':
             self.reap(i, st[1])
             return
@@ -527,11 +540,29 @@ class World:
         if op == 'race':            # happens INSIDE the collection that follows this step (collect_point)
             self.race = st
             return
+        if op == 'hold':
+            self.held = True
+            self.span_dead, self.span_respawn, self.span_len = set(), False, 0
+            return
+        if op == 'release':
+            if self.held:
+                res.count('sparse:spans')
+                res.count('sparse:span-of-%s-steps' % ('1-3' if self.span_len <= 3 else ('4-9' if self.span_len <= 9 else '10+')))
+                if self.span_dead:
+                    res.count('sparse:span-with-mark-process-dead')
+                if self.span_respawn:
+                    res.count('sparse:span-with-dead-then-same-pid-rewrites-live-gauge-file')
+                if self.kept is not None:
+                    res.count('sparse:span-under-kept-collector')
+            self.held = False
+            return
         if op == 'foreign':
             self.foreign(i, st)
             return
         pid, mi = st[1], st[2]
         md = self.pool[mi]
+        if self.held and str(pid) in self.span_dead and md['kind'] == 'gauge' and md['mode'].startswith(LIVE):
+            self.span_respawn = True
         p = self.proc(pid)
         res.count('kind:' + (md['kind'] if md['kind'] != 'gauge' else 'gauge-' + md['mode']))
         if op == 'settime':
@@ -639,7 +670,7 @@ class World:
                 self.reap(i, pid)
 
         try:
-            fams, ls, how = mpsim.collect_racing(self.sim.dir, lambda l: mpsim.race_order(l, doomed, place), between, via)
+            fams, ls, how = mpsim.collect_racing(self.sim.dir, lambda l: mpsim.race_order(l, doomed, place), between, via, self.kept)
         finally:
             if not done:        # the collector failed before it listed anything: the world moves on all the same
                 between([])
@@ -677,7 +708,7 @@ class World:
             if race is not None:
                 real, paths = self.race_collect(i, race)
             else:
-                real = self.sim.collect()
+                real = self.kept.collect() if self.kept is not None else self.sim.collect()
         except Exception as e:  # noqa
             res.failures.append(('C08:collect-raises', '%scollect() raised %s: %s' % (
                 self.race_text + ': ' if self.race_text else '', type(e).__name__, e), i))
@@ -749,11 +780,12 @@ def run_scenario(scen, want_model=True, want_sample=False):
             res.count('identities:look-alike-group')
     t0 = time.time()
     with mpsim.Sim() as sim:
-        w = World(sim, scen['pool'], res, want_sample)
+        w = World(sim, scen['pool'], res, want_sample, scen.get('kept', False))
+        res.count('collector:' + ('one-object-kept-for-the-scenario' if w.kept is not None else 'fresh-object-per-collection'))
         quiet = scen.get('quiet', 0)    # race corpus: its long common set-up is collected once, at its end
         for i, st in enumerate(scen['steps']):
             w.step(i, st)
-            if i + 1 < quiet and st[0] != 'race':
+            if (i + 1 < quiet or w.held) and st[0] != 'race':
                 continue
             age_files(sim.dir, scen.get('age'), t0)
             w.collect_point(i, want_model)
@@ -853,6 +885,7 @@ def corpus():
     out += foreign_corpus()
     out += identity_corpus()
     out += race_corpus()
+    out += sparse_corpus()
     for k, sc in enumerate(out):
         sc.setdefault('age', AGES[k % 4])
     return out
@@ -876,6 +909,40 @@ def identity_corpus():
             ['inc', 1, 0, [], B(1.0)], ['inc', 1, 0, [], B(2.0)], ['inc', 2, 0, [], B(4.0)], ['inc', 1, 0, [], B(8.0)],
             ['set', 1, 1, [], B(1.0), B(10.0)], ['set', 1, 1, [], B(2.0), B(11.0)], ['obs', 2, 2, [], B(1.0)], ['obs', 2, 2, [], B(3.0)],
             ['dead', 1], ['inc', 2, 0, [], B(16.0)], ['reuse', 1], ['inc', 1, 0, [], B(32.0)]]})
+    return out
+
+
+def sparse_corpus():
+    """SPARSE collections through ONE collector object: collect; [no collection:] a worker dies, a new worker with the same
+    pid re-creates its live-gauge files with other values / fewer / more children in another order; collect — for every
+    live mode; spans without a death; a file that grows past its initial size inside a span and is re-created small"""
+    out = []
+    live = [m for m in modes() if m.startswith(LIVE)]
+    S = lambda pid, mi, lvs, v, t: ['set', pid, mi, lvs, B(v), B(t)]
+    for a, mode in enumerate(live):
+        pool = [mdef('gauge', 'g', (), mode), mdef('gauge', 'gl', ['l'], mode), mdef('counter', 'c'),
+                mdef('gauge', 'ga', ['l'], live[(a + 2) % len(live)]), mdef('gauge', 'gn', (), mode[len(LIVE):])]
+        setup = [S(1, 0, [], 10.0, 10.0), S(2, 0, [], 20.0, 11.0), S(1, 1, ['x'], 1.0, 12.0), S(1, 1, ['y'], 2.0, 13.0), S(1, 1, ['z'], 3.0, 14.0),
+                 S(2, 1, ['y'], -4.0, 15.0), S(1, 3, ['x'], 0.5, 16.0), S(1, 4, [], 6.0, 17.0), ['inc', 1, 2, [], B(1.0)], ['inc', 2, 2, [], B(2.0)]]
+        spans = [
+            [['dead', 1], S(1, 0, [], 7.0, 20.0)],                                                             # other value
+            [['dead', 1], S(1, 1, ['y'], 5.0, 20.0)],                                                          # fewer children
+            [['dead', 1], S(1, 1, ['z'], 9.0, 20.0), S(1, 1, ['w'], 8.0, 21.0), S(1, 1, ['x'], 7.0, 22.0), S(1, 1, ['y'], 6.0, 23.0),
+             S(1, 0, [], -1.0, 24.0), S(1, 3, ['q'], 2.5, 25.0)],                                              # more children, other order
+            [['dead', 1], ['reuse', 1], S(1, 0, [], 3.0, 20.0), ['dead', 1], S(1, 0, [], 4.0, 21.0), ['dead', 2], ['inc', 1, 2, [], B(4.0)]],
+            [['dead', 2], ['dead', 1], S(2, 1, ['x'], 1.5, 20.0), S(1, 1, ['x'], 2.5, 20.0), S(2, 0, [], 0.0, 21.0)],
+            [S(1, 0, [], 11.0, 20.0), ['inc', 2, 2, [], B(8.0)], S(3, 1, ['y'], 12.0, 21.0), S(1, 4, [], -6.0, 22.0)],   # no death: plain staleness
+        ]
+        for j, span in enumerate(spans):
+            tail = [S(2, 0, [], 21.0, 30.0), ['hold'], ['dead', 1], ['dead', 2], S(2, 0, [], 22.0, 31.0), ['release'], S(1, 0, [], 1.0, 32.0)]
+            out.append({'pool': pool, 'kept': j != 5 or a % 2 == 0, 'quiet': len(setup) - 1,
+                        'steps': setup + [['hold']] + span + [['release']] + tail})
+    # growth past the initial file size inside a span, then re-creation (small again) inside the next span
+    for mode in ('liveall', 'livesum', 'all'):
+        pool = [mdef('gauge', 'gl', ['l'], mode), mdef('counter', 'cl', ['l'])]
+        grow = [S(1, 0, ['v%d' % n], float(n % 7), 20.0) for n in range(1300)] + [['inc', 1, 1, ['v%d' % n], B(1.0)] for n in range(0, 1300, 2)]
+        out.append({'pool': pool, 'kept': True, 'steps': [S(1, 0, ['v0'], 1.0, 10.0), S(2, 0, ['v0'], 2.0, 11.0), ['inc', 1, 1, ['v0'], B(1.0)], ['hold']] + grow + [
+            ['release'], ['hold'], ['dead', 1], S(1, 0, ['v1'], 5.0, 30.0), ['release'], S(2, 0, ['v1'], 6.0, 31.0)]})
     return out
 
 
@@ -1053,6 +1120,29 @@ def gen_foreign_step(rng, pool, cands, mi):
     return ['foreign', rng.choice(FOREIGN_PIDS), mi, lvs, pairs, B(rng.choice(SUM_ANY))]
 
 
+def gen_respawn_span(rng, pool, cands, pids, lg):
+    """[writes of p to live gauges] (collected) hold; dead p; the same pid writes live gauges again — other values, other
+    children, another order —, other processes act; release (collected)"""
+    p = rng.choice(pids)
+    t = float(rng.randint(1, 40))
+
+    def W(pid, mi):
+        md = pool[mi]
+        lvs = rng.choice(cands[mi]) if rng.random() < 0.7 or not md['labels'] else gen_lvs(rng, md)
+        return ['set', pid, mi, lvs, B(gen_value(rng, md, 'set')), B(t + rng.randint(0, 5))]
+    out = [W(p, rng.choice(lg)) for _ in range(rng.randint(1, 3))] + [['hold']]
+    if rng.random() < 0.3:
+        out.append(W(rng.choice(pids), rng.choice(lg)))
+    out.append(['dead', p])
+    if rng.random() < 0.3:
+        out.append(['reuse', p])
+    for _ in range(rng.randint(1, 4)):
+        out.append(W(p if rng.random() < 0.8 else rng.choice(pids), rng.choice(lg)))
+    if rng.random() < 0.25:
+        out.append(['dead', rng.choice(pids)])
+    return out + [['release']]
+
+
 def gen_race_step(rng, pids):
     place = rng.choice(mpsim.RACE_PLACES + ('shuffle:%d' % rng.randrange(1000),) * 3)
     return ['race', rng.sample(pids, rng.randint(1, min(3, len(pids)))), rng.choice(['glob', 'glob', 'merge']), place]
@@ -1153,7 +1243,20 @@ def gen_scenario(rng, all_modes, long=False):
     if rng.random() < 0.45:     # collections racing with mark_process_dead (see World.race_collect), at random positions
         for _ in range(rng.choice([1, 1, 2, 3])):
             steps.insert(rng.randint(len(steps) // 3, len(steps)), gen_race_step(rng, pids))
-    return {'pool': pool, 'steps': steps, 'age': rng.choice(AGES)}
+    scen = {'pool': pool, 'steps': steps, 'age': rng.choice(AGES)}
+    # SPARSE collections: quiet spans (hold ... release) at random places; one collector object kept for the scenario
+    if rng.random() < 0.6:
+        scen['kept'] = True
+    if rng.random() < 0.45:
+        for _ in range(rng.choice([1, 1, 2, 3])):
+            a = rng.randint(len(steps) // 4, len(steps))
+            steps.insert(min(a + rng.randint(1, 8), len(steps)), ['release'])
+            steps.insert(a, ['hold'])
+    lg = [j for j, md in enumerate(pool) if md['kind'] == 'gauge' and md['mode'].startswith(LIVE)]
+    if lg and rng.random() < 0.5:       # a span in which a worker dies and its pid is re-used on the same live-gauge files
+        for _ in range(rng.choice([1, 1, 2])):
+            steps[rng.randint(len(steps) // 3, len(steps)):0] = gen_respawn_span(rng, pool, cands, pids, lg)
+    return scen
 
 
 # ================================================================================================== real fork
@@ -1165,7 +1268,7 @@ def gen_fork_scenario(rng, all_modes):
         sc = gen_scenario(rng, all_modes)
         ops = []
         for st in sc['steps']:
-            if st[0] in ('dead', 'reuse', 'race'):
+            if st[0] in ('dead', 'reuse', 'race', 'hold', 'release'):
                 continue
             mi = st[2] % len(pool)
             md = pool[mi]
@@ -1246,7 +1349,7 @@ def run_fork_scenario(scen):
             rc = os.waitstatus_to_exitcode(status)
             if rc != 0:
                 res.failures.append(('C08:raises', 'forked worker %d exited with %d (2: wrong exception behaviour, 3: crashed)' % (w, rc), 0))
-        world = World(sim, pool, res)
+        world = World(sim, pool, res, kept=scen.get('kept', False))
         for w, pid in enumerate(pids):
             for st in scen['workers'][w]:
                 oracle_apply(world.oracle, pid, st)
@@ -1407,12 +1510,12 @@ def run(ctx):
     all_modes = modes()
     ctx.rule = ('scenario = metric pool (counters, summaries, histograms of 5 bucket layouts, gauges of the 10 modes, labelled or not) '
                 '+ step list over 1-4 simulated processes (create / child / inc / dec / observe / set at a scripted time / '
-                'Gauge.set_to_current_time at a scripted time / Counter.reset / mark_process_dead / pid reuse / a collection RACING with mark_process_dead of 1-3 '
+                'Gauge.set_to_current_time at a scripted time / Counter.reset / mark_process_dead / pid reuse / hold ... release spans without any collection (also: a worker dies and the same pid re-creates its live-gauge files inside the span), ONE collector object kept for the whole scenario in 60% of them / a collection RACING with mark_process_dead of 1-3 '
                 'processes (reaped between the collector\'s listing and its reads, vanished live-gauge files first/middle/last/spread/shuffled in the listing, '
                 'through collect() with the listing hooked and through merge(explicit list)) / foreign histogram store file with non-canonical le spellings, written through the '
                 'library store); label names before and after "le"; int and string identities (look-alike groups together); file mtimes '
                 'aged per scenario (now/3s/1h/keep) before every collection; hand-written corpus per mode first, then seeded random scenarios; one case = '
-                'one collection point (a collection follows every step); non-trivial when >= 2 processes hold data or a '
+                'one collection point (a collection follows every step outside a hold ... release span); non-trivial when >= 2 processes hold data or a '
                 'death/reuse happened; distinct by the canonical collected output')
     quick = ctx.tier == 'quick'
     budget = 40.0 if quick else 420.0
